@@ -43,7 +43,7 @@ def replay(w, ctx):
 
 def floors(m, tier):
     c = m['counters']
-    need = 1500 if tier == 'quick' else 30000
+    need = 1500 if tier == 'quick' else 18000
     out = []
     if c.get('c01_matchings_judged', 0) < need:
         out.append('only %d printed matchings judged (< %d)' % (c.get('c01_matchings_judged', 0), need))
